@@ -18,6 +18,7 @@ import XlModel.Lemmas.SaveCols3
 import XlModel.Lemmas.SaveCols4
 import XlModel.Lemmas.SaveBook
 import XlModel.Lemmas.SaveMerge
+import XlModel.Lemmas.SaveSst
 import XlModel.Lemmas.SaveBook2
 import XlModel.Lemmas.SaveBook3
 import XlModel.Lemmas.SaveCols
@@ -358,6 +359,41 @@ theorem finding_overlapping_merges_normalised_at_save :
     SaveMerge.normalize [⟨2, 1, 3, 7⟩, ⟨2, 5, 5, 5⟩] = [⟨2, 1, 5, 7⟩] ∧
     SaveMerge.anchorOf [⟨2, 1, 3, 7⟩, ⟨2, 5, 5, 5⟩] 5 1 = (5, 1) ∧
     SaveMerge.anchorOf (SaveMerge.normalize [⟨2, 1, 3, 7⟩, ⟨2, 5, 5, 5⟩]) 5 1 = (2, 1) := by decide
+
+/-! ## `inv_step`: `SetCellStr`'s shared-string bookkeeping (table vs index map) -/
+
+/-- **inv_step (SetCellStr bookkeeping)**: if every binding of the index map points at an item with that
+text (`MapOk`; true for a new file and for the map built at open, `sst_map_ok_at_open`), then after
+`setCellString s` it still does, the index written into the cell holds an item that reads back as `s`
+truncated to the cell limit, no earlier item of the table changed (so no previously written cell changes
+its value), and the table stays XML-legal. -/
+theorem inv_step_setcellstr (st : SaveSst.State) (s : List Char) (h : SaveSst.MapOk st)
+    (hl : ∀ t ∈ st.sst, SaveBook.LegalS t) :
+    SaveSst.MapOk (SaveSst.setCellString st s).1 ∧
+    (∃ t, (SaveSst.setCellString st s).1.sst[(SaveSst.setCellString st s).2]? = some t ∧ siString t = spec s) ∧
+    (∀ j, j < st.sst.length → (SaveSst.setCellString st s).1.sst[j]? = st.sst[j]?) ∧
+    (∀ t ∈ (SaveSst.setCellString st s).1.sst, SaveBook.LegalS t) := by
+  have h1 : Facts.C01.sharedStringStoresEscaped = true := rfl
+  have hst : (trimCellValue (truncate s)).1 = storedText s := by
+    simp only [storedText, h1, if_true]
+  obtain ⟨a, b, c⟩ := SaveSst.setShared_spec st (truncate s) h
+  refine ⟨a, ⟨_, b, ?_⟩, c, ?_⟩
+  · rw [hst]; exact setstr_getstr s
+  · intro t ht
+    unfold SaveSst.setCellString SaveSst.setShared at ht
+    simp only at ht
+    cases hlk : SaveSst.lookup st.map (trimCellValue (truncate s)).1 with
+    | some i => simp only [hlk] at ht; exact hl t ht
+    | none =>
+      simp only [hlk, List.mem_append, List.mem_singleton] at ht
+      rcases ht with ht | rfl
+      · exact hl t ht
+      · rw [hst]; exact stored_xml_legal s
+
+/-- the invariant holds for a new workbook and for the map `sharedStringsReader` builds at open -/
+theorem sst_map_ok_at_open (sst : List (List Char)) :
+    SaveSst.MapOk ⟨[], []⟩ ∧ SaveSst.MapOk (SaveSst.opened sst) :=
+  ⟨SaveSst.mapOk_empty, SaveSst.mapOk_opened sst⟩
 
 /-! ## `inv_step`: the invariant holds on states reached by cell writes -/
 
